@@ -217,6 +217,28 @@ def rule_typechecker_persistent(ctx, rid="R16.4"):
     else:
         r.fail("_types.TypeChecker._type_checkers|converter|%s" % conv, "jsonschema/_types.py TypeChecker._type_checkers",
                "field converter is %s, not pmap: .update()/.remove() would mutate a map shared with other checkers" % conv)
+    # every field: attr.evolve hands the fields it is not told about on to the copy *as they are*, so a mutable one (a dict used as
+    # a memo) is shared between a checker and everything derived from it
+    for fname, fexpr in sorted(c.attrs.items()):
+        if not (isinstance(fexpr, ast.Call) and norm(fexpr.func) in ("attr.ib", "attr.attrib", "attrib", "ib")) or fname == "_type_checkers":
+            continue
+        kws = {k.arg: k.value for k in fexpr.keywords}
+        mutable = None
+        if "factory" in kws and norm(kws["factory"]) in ("dict", "list", "set", "collections.OrderedDict", "OrderedDict", "collections.defaultdict"):
+            mutable = "factory=%s" % norm(kws["factory"])
+        elif "default" in kws and (isinstance(kws["default"], (ast.Dict, ast.List, ast.Set)) or
+                                   (isinstance(kws["default"], ast.Call) and norm(kws["default"].func) in ("dict", "list", "set", "attr.Factory", "Factory"))):
+            mutable = "default=%s" % norm(kws["default"])
+        conv2 = norm(kws["converter"]) if "converter" in kws else None
+        if mutable and conv2 not in ("pmap", "pvector", "tuple", "frozenset"):
+            r.fail("_types.TypeChecker.%s|mutable-field|%s" % (fname, mutable), "jsonschema/_types.py TypeChecker.%s" % fname,
+                   "field %s holds a mutable object (%s): attr.evolve passes it on unchanged, so checkers derived with redefine/remove share it with their parent" % (fname, mutable))
+        else:
+            r.ok("jsonschema/_types.py TypeChecker.%s" % fname, "immutable field")
+    probe = c.methods.get("is_type")
+    if probe is not None:
+        for w, t in eff.nonlocal_writes(probe):
+            r.fail("%s|write|%s" % (probe.qual, w.text[:40]), site(probe, w.node), "is_type writes %s: asking one checker a question changes what it (and its relatives) answer later" % w.text[:50])
     for name in ("redefine", "redefine_many", "remove"):
         m = c.methods.get(name)
         if m is None:
@@ -377,6 +399,48 @@ def rule_api_writes_no_shared_state(ctx, rid="R16.9"):
     return r
 
 
+def rule_no_keyword_coupling(ctx, rid="R16.13"):
+    """"Overriding one keyword changes the behaviour of that keyword only": a keyword function that validates against a schema it
+    writes itself (`validator.is_valid(instance, {"enum": [const]})`) routes its verdict through the class's table entry for *another*
+    keyword, so extend(Parent, {"enum": f}) changes `const` as well.  The one coupling the pinned tree has -- Draft 3 `disallow`,
+    defined by the draft as the negation of `type` -- is listed, with its reason."""
+    prog = ctx.prog
+    calls = calls_of(prog)
+    allowed = {("disallow", "type"): "Draft 3 defines disallow as 'not one of these types': it is specified in terms of the type keyword"}
+    vocab = set()
+    for d in prog.tables.drafts.values():
+        vocab |= set(d.table)
+    kwf = prog.tables.keyword_funcs()
+    r = ctx.rule(rid, "no keyword function decides by validating against a schema literal that names another keyword (the derived class's table "
+                      "entry for that keyword would change this one too)", floor=30)
+    for f in sorted(kwf, key=lambda x: x.qual):
+        own = {k for (_d, k) in kwf[f]}
+        found = []
+        lits = {}
+        for n in walk_body(f):
+            if isinstance(n, ast.Assign) and len(n.targets) == 1 and isinstance(n.targets[0], ast.Name) and isinstance(n.value, ast.Dict):
+                lits.setdefault(n.targets[0].id, []).append(n.value)
+        for n in walk_body(f):
+            if isinstance(n, ast.Call) and isinstance(n.func, ast.Attribute) and n.func.attr in ("is_valid", "descend", "iter_errors", "validate"):
+                for a in list(n.args) + [k.value for k in n.keywords]:
+                    cands = [a] if isinstance(a, ast.Dict) else (lits.get(a.id, []) if isinstance(a, ast.Name) else [])
+                    for dct in cands:
+                        for k in dct.keys:
+                            if isinstance(k, ast.Constant) and isinstance(k.value, str) and k.value in vocab and k.value not in own:
+                                found.append((n, k.value))
+        if not found:
+            r.ok(site(f), "%s: validates only against (parts of) the schema it was given" % "/".join(sorted(own)))
+        for n, other in found:
+            why = next((allowed[(o, other)] for o in own if (o, other) in allowed), None)
+            if why:
+                r.ok(site(f, n), "%s -> %s: %s" % ("/".join(sorted(own)), other, why))
+            else:
+                r.fail("%s|keyword-coupling|%s" % (f.qual, other), site(f, n),
+                       "the function for %s decides through `%s`: the verdict goes through the class's entry for %r, so a class derived with "
+                       "extend(..., {%r: f}) changes %s as well" % ("/".join(sorted(own)), norm(n)[:60], other, other, "/".join(sorted(own))))
+    return r
+
+
 def run(ctx):
     ctx.explanation = (
         "C16 as ownership/aliasing rules: R16.1 create() binds fresh copies; R16.2 extend() writes nothing reachable from the "
@@ -393,6 +457,7 @@ def run(ctx):
     rule_four_checkers(ctx)
     rule_no_foreign_table_writes(ctx)
     rule_api_writes_no_shared_state(ctx)
+    rule_no_keyword_coupling(ctx)
     # R16.10: a resolver snapshots the registry at construction; nothing on the validation path reads the live registry, so a
     # later registration cannot change what an existing validator resolves
     from .c18 import rule_registry_read_only
